@@ -1092,7 +1092,18 @@ func (ex *executor) containerIntrinsic(st *state, key string, cc *ssa.CallCommon
 			eqs = append(eqs, Eq(nw, od))
 		}
 		ex.assume(st, Forall([]*Term{bv}, Implies(inRange, And(eqs...))))
-		r.abstracted["sort.Slice: the sorted slice becomes some permutation of itself (the order itself is not modelled), nothing else changes"]++
+		// the result is ordered by the comparator: no element is less than its predecessor
+		ordered := false
+		if len(cc.Args) > 1 {
+			if fv := ex.val(cc.Args[1]); fv.Cl != nil && len(fv.Cl.fn.Params) == 2 {
+				ordered = ex.assumeSorted(st, fv.Cl, x.C[2])
+			}
+		}
+		if ordered {
+			r.abstracted["sort.Slice: the sorted slice becomes a permutation of itself in which no element is less (by the given comparator) than its predecessor; sort.Slice itself is not verified"]++
+		} else {
+			r.abstracted["sort.Slice: the sorted slice becomes some permutation of itself (the order itself is not modelled), nothing else changes"]++
+		}
 		return Value{T: rt}, true
 	case "container/heap.Init", "container/heap.Push", "container/heap.Pop", "container/heap.Fix", "container/heap.Remove":
 		mi, ok := cc.Args[0].(*ssa.MakeInterface)
@@ -1165,4 +1176,33 @@ func isLockLabel(l string) bool {
 		}
 	}
 	return false
+}
+
+// assumeSorted: forall k in [0, n-1): !less(k+1, k), with the comparator closure evaluated symbolically.
+func (ex *executor) assumeSorted(st *state, cl *closureVal, n *Term) (ok bool) {
+	r := ex.root()
+	nObl, nAss := len(r.obls), len(r.assumes)
+	savedCtx := ex.curCtx
+	defer func() {
+		ex.curCtx = savedCtx
+		r.obls = r.obls[:nObl]
+		if rec := recover(); rec != nil {
+			r.assumes = r.assumes[:nAss]
+			ok = false
+		}
+	}()
+	k := BoundVar("sk", BV(64))
+	intT := types.Typ[types.Int]
+	sub := *ex
+	sub.safety = false
+	sub.inSpec = true
+	scratch := st.clone()
+	res := (&sub).inlineCall(scratch, cl.fn, []Value{{T: intT, C: []*Term{BVBin("bvadd", k, BVI(1, 64))}}, {T: intT, C: []*Term{k}}}, cl.bindings, token.NoPos)
+	r.assumes = r.assumes[:nAss]
+	if len(res.C) != 1 || res.C[0].sort.K != SBool {
+		return false
+	}
+	rng := And(BVCmp("bvsle", BVI(0, 64), k), BVCmp("bvslt", BVBin("bvadd", k, BVI(1, 64)), n))
+	ex.assume(st, Forall([]*Term{k}, Implies(rng, Not(res.C[0]))))
+	return true
 }
